@@ -1,5 +1,6 @@
 import VProofs.C01
 import VProofs.Lemmas.TagFinal
+import VProofs.Lemmas.TagLocal
 /-!
 # C06 — Predicted tags equal the per-token linear classifiers
 
@@ -115,6 +116,20 @@ theorem C06_no_categories (cfg : Cfg) (m : WModel) (p : Predictor) (hp : Predict
   rw [h1]
   simp only [h2, hn, if_true]
 
+set_option linter.unusedVariables false in
+/-- locality of the tag classifiers: the tag row of a token depends only on the token and on the `R` characters on either side
+of its last character, where `R` bounds the length and the relative position of every tag n-gram — whatever precedes and follows
+that stretch of text -/
+theorem C06_tags_local (m : WModel) (ht : WFTags m) (R : Nat)
+    (hR : ∀ tm ∈ m.tagModels,
+      (∀ d ∈ tm.charNgrams, d.ngram.length ≤ R ∧ ∀ w ∈ d.weights, w.rel ≤ R) ∧
+      (∀ d ∈ tm.typeNgrams, d.ngram.length ≤ R ∧ ∀ w ∈ d.weights, w.rel ≤ R))
+    (pre pre' mid post post' : List Char) (st en : Nat) (hse : st < en) (h1 : R ≤ en) (h2 : en + R ≤ mid.length) :
+    specTokenTags m (pre ++ mid ++ post) (pre.length + st) (pre.length + en) =
+      specTokenTags m (pre' ++ mid ++ post') (pre'.length + st) (pre'.length + en) := by
+  rw [C06Loc.specTokenTags_local m R hR pre mid post st en hse h1 h2,
+    C06Loc.specTokenTags_local m R hR pre' mid post' st en hse h1 h2]
+
 /-! ## non-vacuity: the model and sentence of `C01.lean` satisfy the hypotheses of `C06_tags` / `C06_candidates`
 (one tag model for the surface `a` with one two-candidate category; the type n-gram one character after the token
 votes for the second candidate), and the model computes what the specification says -/
@@ -159,4 +174,30 @@ def C06_exRunFar : Res Sentence :=
 example : C06_exRunFar.map (·.bounds) = .ok [B.W, B.N] := by decide
 example : C06_exRunFar.map (·.tags) = .ok [some ['x'], none, none] := by decide
 example : C06_exRunFar.bind (·.tagCandidates 1) = .ok [[(['x'], 5), (['y'], 1)]] := by decide
+
+/-! ## non-vacuity of `C06_tags_local`: `R = 2` bounds the n-gram lengths (2) and relative positions (0, 1 resp. 2, 1) of both
+example models; in `mid = "baba"` the token `[1, 2)` (surface `a`, which has a tag model) has `R` characters on either side
+of its end (both side conditions hold with equality) -/
+
+example : ∀ m ∈ [C01_exModel, C06_exModelFar], ∀ tm ∈ m.tagModels,
+    (∀ d ∈ tm.charNgrams, d.ngram.length ≤ 2 ∧ ∀ w ∈ d.weights, w.rel ≤ 2) ∧
+    (∀ d ∈ tm.typeNgrams, d.ngram.length ≤ 2 ∧ ∀ w ∈ d.weights, w.rel ≤ 2) := by decide
+example : 1 < 2 ∧ 2 ≤ 2 ∧ 2 + 2 ≤ ['b', 'a', 'b', 'a'].length := by decide
+example : specTokenTags C01_exModel (['a', 'a'] ++ ['b', 'a', 'b', 'a'] ++ ['b']) (2 + 1) (2 + 2) = [some ['y']] ∧
+    specTokenTags C01_exModel ([] ++ ['b', 'a', 'b', 'a'] ++ ['1', 'a']) (0 + 1) (0 + 2) = [some ['y']] := by decide
+example : specTokenTags C06_exModelFar (['a', 'a'] ++ ['b', 'a', 'b', 'a'] ++ ['b']) (2 + 1) (2 + 2) = [some ['x']] ∧
+    specTokenTags C06_exModelFar ([] ++ ['b', 'a', 'b', 'a'] ++ ['1', 'a']) (0 + 1) (0 + 2) = [some ['x']] := by decide
+/-- one character fewer on the right (`en + R = mid.length + 1`) and the conclusion fails -/
+example : specTokenTags C06_exModelFar ([] ++ ['b', 'a', 'b'] ++ ['a']) (0 + 1) (0 + 2)
+    ≠ specTokenTags C06_exModelFar ([] ++ ['b', 'a', 'b'] ++ ['b']) (0 + 1) (0 + 2) := by decide
+
+/-- the example model with the character tag n-gram (at relative position 0) voting for the first candidate -/
+def C06_exModelNear : WModel :=
+  { C01_exModel with
+    tagModels := [{ token := ['a'], tags := [[['x'], ['y']]], charNgrams := [⟨['b', 'a'], [⟨0, [5, 0]⟩]⟩],
+                    typeNgrams := [⟨[2], [⟨1, [0, 1]⟩]⟩], bias := [0, 0] }] }
+
+/-- one character fewer on the left (`en = R - 1`) and the conclusion fails -/
+example : specTokenTags C06_exModelNear (['b'] ++ ['a', 'b', 'a'] ++ []) (1 + 0) (1 + 1)
+    ≠ specTokenTags C06_exModelNear (['a'] ++ ['a', 'b', 'a'] ++ []) (1 + 0) (1 + 1) := by decide
 end V
